@@ -22,9 +22,12 @@ Theorem C20_nothing_from_text_doc_comment : forall tags l s, no_code l = true ->
 Proof. exact nothing_from_text_doc_comment. Qed.
 Print Assumptions C20_nothing_from_text_doc_comment.
 
-Theorem C20_comments_attach_iff_immediately_before : forall tags k lc text line c r t,
+(* in any state whose comment block is closed -- whatever translator comments were written earlier --
+   a tagged comment attaches to the construct on the next line and only its own text is attached *)
+Theorem C20_comments_attach_iff_immediately_before : forall tags k lc text line c r t s,
+  intc s = false ->
   single_line (strip text) -> filter (fun t0 => starts_with t0 (strip text)) tags = [t] -> 1 <= lc ->
-  ex_nodes tags (NCons (NComment lc text) (NCons (NCodeNode k line c) r)) est0 =
+  ex_nodes tags (NCons (NComment lc text) (NCons (NCodeNode k line c) r)) s =
     (if lc <? line - 1 then map (fun km => ((line - 1) + ((fst km + 2) - 1), snd km, [])) c
      else map (fun km => ((line - 1) + ((fst km + 2) - 1), snd km, [strip text])) c)
     ++ ex_nodes tags r {| tc := match c with [] => if lc <? line - 1 then [] else [(lc, strip text)] | _ => [] end; intc := false |}.
@@ -36,6 +39,27 @@ Theorem C20_untagged_comment_is_ignored : forall tags lc text rest s,
   ex_nodes tags (NCons (NComment lc text) rest) s = ex_nodes tags rest s.
 Proof. exact untagged_comment_is_ignored. Qed.
 Print Assumptions C20_untagged_comment_is_ignored.
+
+Theorem C20_text_closes_comment_block : forall tags content lc text rest s,
+  is_blank_text content = false -> filter (fun t0 => starts_with t0 (strip text)) tags = [] ->
+  ex_nodes tags (NCons (NText content) (NCons (NComment lc text) rest)) s = ex_nodes tags rest {| tc := tc s; intc := false |}.
+Proof. exact text_closes_comment_block. Qed.
+Print Assumptions C20_text_closes_comment_block.
+
+Theorem C20_construct_closes_comment_block : forall line c s, intc (snd (process line c s)) = false.
+Proof. exact construct_closes_comment_block. Qed.
+Print Assumptions C20_construct_closes_comment_block.
+
+(* the two histories of the repaired defect (fix 2nd C20 commit): a stale translator comment and an
+   ordinary comment after text are attached to nothing *)
+Example C20_no_stale_comments :
+  extract [s2l "TRANSLATORS:"]
+    (NCons (NComment 1 (s2l "TRANSLATORS: old")) (NCons (NText (s2l "filler"))
+      (NCons (NComment 3 (s2l "TRANSLATORS: new")) (NCons (NCodeNode CExpr 4 [(0, 5)])
+        (NCons (NComment 5 (s2l "TRANSLATORS: x")) (NCons (NText (s2l "filler"))
+          (NCons (NComment 7 (s2l "ordinary")) (NCons (NCodeNode CExpr 8 [(0, 6)]) NNil))))))))
+  = [(4, 5, [s2l "TRANSLATORS: new"]); (8, 6, [])].
+Proof. vm_compute. reflexivity. Qed.
 
 Example C20_nonvacuous :
   extract [s2l "TRANSLATORS:"]
